@@ -45,7 +45,7 @@ func init() {
 		CaseTimeout: 120 * time.Second,
 		ChildSetup:  c18Setup,
 		Require: func(tier string) map[string]int64 {
-			return map[string]int64{"stream_bytes_checked": 20000000, "eof_cases": 40, "wrong_type_cases": 16, "deadline_idle_branch_seen": 30, "deadline_active_branch_seen": 30, "deadline_reset_then_round_trip": 30}
+			return map[string]int64{"stream_bytes_checked": 20000000, "eof_cases": 40, "wrong_type_cases": 12, "deadline_idle_branch_seen": 30, "deadline_active_branch_seen": 30, "deadline_reset_then_round_trip": 30}
 		},
 		Assumptions: []string{
 			"zero length reads are excluded (the property excludes them); empty messages are skipped by the adapter",
